@@ -163,7 +163,7 @@ def owner_of(line):
 # ------------------------------------------------------------------------------------------ proof side
 
 PROP_MODULES = {"C07": ["C07", "C07Num", "C07Final", "Consts"], "C09": ["C09", "C09Final", "C09Utf8", "Consts"], "C10": ["C10", "C10Num", "Consts"],
-                "C15": ["C15", "C15Utf8", "Consts"]}
+                "C15": ["C15", "C15Utf8", "Consts"], "C03": ["C03", "ArityFns"]}
 # optional modules (added as proof agents deliver them): used only when the file exists
 for _pid, _mods in (("C10", ["C10IEEE", "C10RoundTrip"]), ("C01", ["C01", "C01Wf"]), ("C18", ["C18", "C18RoundTrip"])):
     for _m in _mods:
@@ -171,7 +171,7 @@ for _pid, _mods in (("C10", ["C10IEEE", "C10RoundTrip"]), ("C01", ["C01", "C01Wf
             PROP_MODULES.setdefault(_pid, [_pid] if _m != _pid else [])
             if _m not in PROP_MODULES[_pid]: PROP_MODULES[_pid].append(_m)
 # namespaces whose theorems are the obligations of a property (Consts = tie theorems against constants regenerated from the source)
-PROP_NAMESPACES = {"C07": ["C07", "Consts"], "C09": ["C09", "Consts"], "C10": ["C10", "Consts"], "C15": ["C15", "Consts"]}
+PROP_NAMESPACES = {"C03": ["C03", "ArityFns"], "C07": ["C07", "Consts"], "C09": ["C09", "Consts"], "C10": ["C10", "Consts"], "C15": ["C15", "Consts"]}
 
 
 def modules_of(pid):
